@@ -4595,7 +4595,11 @@ bool CanettiGennaroJareckiKrawczykRabinDSS::Sign
 				if (dkg2idx[*it] != i_in)
 				{
 					mpz_set_ui(foo, 0L), mpz_set_ui(bar, 0L);
-					if (!k_i_vss[dkg2idx[*it]]->Reconstruct(dkg2idx[*it], foo, idx2dkg, rbc, err))
+					// the back-up of k_j may already have been reconstructed in Step 1e: use a fresh broadcast identifier
+					rbc->setID("CanettiGennaroJareckiKrawczykRabinDSS::Sign() step 2e");
+					bool k_ok = k_i_vss[dkg2idx[*it]]->Reconstruct(dkg2idx[*it], foo, idx2dkg, rbc, err);
+					rbc->unsetID();
+					if (!k_ok)
 					{
 						err << "P_" << idx2dkg[i_in] << ": reconstruction of k_j (in Step 2e) failed for P_" << *it << std::endl;	
 						throw false;
